@@ -68,14 +68,14 @@ def merge(results):
     return tot
 
 # ---------------------------------------------------------------------------- native replay
-_REPLAY_BIN = None
-def replay_bin():
-    """build (incrementally) the native executor against /repo's current working tree"""
-    global _REPLAY_BIN
-    if _REPLAY_BIN:
-        return _REPLAY_BIN
+_REPLAY_BINS = {}
+def replay_bin(small=False):
+    """build (incrementally) the native executor against /repo's current working tree; small=True: with the
+    verif-small-buffer hook of mpd_protocol enabled (8-byte receive buffer)"""
+    if small in _REPLAY_BINS:
+        return _REPLAY_BINS[small]
     src = os.path.join(VERIF, 'ws', 'replay')
-    target = os.path.join(engine.scratch_dir(), 'replay-target')
+    target = os.path.join(engine.scratch_dir(), 'replay-target-small' if small else 'replay-target')
     env = dict(os.environ)
     env['CARGO_TARGET_DIR'] = target
     env['CARGO_NET_OFFLINE'] = 'true'
@@ -84,13 +84,13 @@ def replay_bin():
     if not os.path.exists(lock):
         import shutil
         shutil.copy(os.path.join(os.environ.get('VERIF_REPO', '/repo'), 'Cargo.lock'), lock)
-    r = subprocess.run(['cargo', 'build', '--offline', '--quiet'], cwd=src, env=env, stdout=subprocess.PIPE,
-                       stderr=subprocess.PIPE, text=True)
+    r = subprocess.run(['cargo', 'build', '--offline', '--quiet'] + (['--features', 'small'] if small else []), cwd=src, env=env,
+                       stdout=subprocess.PIPE, stderr=subprocess.PIPE, text=True)
     if r.returncode != 0:
         sys.stderr.write(r.stderr[-3000:])
         raise engine.Inconclusive('native replay executor does not build against the current tree')
-    _REPLAY_BIN = os.path.join(target, 'debug', 'replay')
-    return _REPLAY_BIN
+    _REPLAY_BINS[small] = os.path.join(target, 'debug', 'replay')
+    return _REPLAY_BINS[small]
 
 def hexs(b):
     b = bytes(b)
@@ -99,9 +99,9 @@ def hexs(b):
 def unhex(s):
     return b'' if s == '-' else bytes.fromhex(s)
 
-def run_replay(args, timeout=60):
+def run_replay(args, timeout=60, small=False):
     """run the native executor; returns dict key -> [values] (repeated keys keep order)"""
-    r = subprocess.run([replay_bin()] + [str(a) for a in args], stdout=subprocess.PIPE, stderr=subprocess.PIPE,
+    r = subprocess.run([replay_bin(small)] + [str(a) for a in args], stdout=subprocess.PIPE, stderr=subprocess.PIPE,
                        text=True, timeout=timeout)
     out = {}
     order = []
